@@ -1,1 +1,5 @@
-import NrfModel
+import NrfProofs.Addr
+import NrfProofs.Exec
+import NrfProofs.Frame
+import NrfProofs.Hoare
+import NrfProofs.Example
